@@ -233,6 +233,8 @@ fn routes(p: &Prepared) -> Vec<Route> {
         r("GET", &file, None, false, false),
         r("DELETE", &file, None, false, false),
         r("POST", &file, None, false, false),
+        // the change-notification feed (websocket upgrade, signed over the path)
+        r("WS", "/api/v1/sync/changes", None, false, false),
     ]
 }
 
@@ -388,9 +390,17 @@ async fn run_item(p: &Prepared, it: &Item, work: &Path) -> Value {
                 }
                 let body: Vec<u8> = r.body.as_ref().map(|b| p.bodies[b].clone()).unwrap_or_default();
                 let signed: Vec<u8> = if r.sign_body { body.clone() } else { r.path.as_bytes().to_vec() };
-                let url = format!("{}{}?connection_id=authx", base, r.path);
-                let method = reqwest::Method::from_bytes(r.method.as_bytes()).unwrap();
+                let is_ws = r.method == "WS";
+                let url = if is_ws { format!("{}{}?connection_id=authx-{}", base, r.path, sent) } else { format!("{}{}?connection_id=authx", base, r.path) };
+                let method = reqwest::Method::from_bytes(if is_ws { b"GET" } else { r.method.as_bytes() }).unwrap();
                 let mut req = client.request(method, &url);
+                if is_ws {
+                    req = req
+                        .header("connection", "Upgrade")
+                        .header("upgrade", "websocket")
+                        .header("sec-websocket-version", "13")
+                        .header("sec-websocket-key", "dGhlIHNhbXBsZSBub25jZQ==");
+                }
                 if r.body.is_some() {
                     req = req.header("content-type", if r.body.as_deref() == Some("file_bytes") { "application/octet-stream" } else { "application/x-protobuf" }).body(body.clone());
                 }
@@ -432,7 +442,8 @@ async fn run_item(p: &Prepared, it: &Item, work: &Path) -> Value {
                     }
                 };
                 *by_status.entry(status.to_string()).or_default() += 1;
-                let success = (200..300).contains(&status);
+                // an accepted websocket upgrade (101) is an accepted request
+                let success = (200..300).contains(&status) || status == 101;
                 let cname = format!("{:?}", cred);
                 let rname = format!("{} {}", r.method, if r.path.contains("/sync/file/") { "/sync/file/.." } else { r.path.trim_start_matches("/api/v1") });
                 if samples.len() < 4 && (sent % 37 == 1) {
@@ -572,6 +583,6 @@ fn main() {
     cov.insert("requests_that_must_be_refused".into(), json!(refused));
     cov.insert("responses_by_status".into(), json!(by_status));
     cov.insert("exhaustive".into(), json!(true));
-    cov.insert("rule".into(), json!("server state in {D1 trusted; D1+D2 trusted; D2 revoked; D2 re-trusted and revoked in one patch} x access config in {none, allow A, allow B, deny A, deny B} (quick: all configs in one state, open config in all states) x 15 route/method pairs x 12 credential forms; every request that must be refused must not be answered 2xx and must leave the server directory (digest of every file) and both accounts' sync status unchanged"));
+    cov.insert("rule".into(), json!("server state in {D1 trusted; D1+D2 trusted; D2 revoked; D2 re-trusted and revoked in one patch} x access config in {none, allow A, allow B, deny A, deny B} (quick: all configs in one state, open config in all states) x 16 route/method pairs (incl. the websocket change feed) x 12 credential forms; every request that must be refused must not be answered 2xx and must leave the server directory (digest of every file) and both accounts' sync status unchanged"));
     std::process::exit(run.finish(cov));
 }
